@@ -549,6 +549,10 @@ def oracle(case, impl):
             if i >= len(impl):
                 return ('%s:no-output' % name, 'no output for operation %d (%s)' % (i, op))
             status, out, slots, events = parse_line(impl[i])
+            if any(e and e[0] == 9 for e in events):
+                return ('clear:reentrant-lock-owner', 'operation %d (%s): a weak-pointer lock issued from inside the clear callback '
+                        'yielded an owner of the memory that is being destroyed' % (i, op))
+            events = [e for e in events if not (e and e[0] == 9)]
             if status not in ('ok', 'abort', 'fault', 'timeout'):
                 return ('%s:garbled' % name, 'unparsable line %r' % impl[i])
             al.begin_events(events)
@@ -631,7 +635,7 @@ class Sim:
 
 # ---------------------------------------------------------------- generators
 
-HEADER_WORDS = ('pool', 'ext', 'fail', 'failfrom')
+HEADER_WORDS = ('pool', 'ext', 'fail', 'failfrom', 'cbprobe')
 
 
 def slots_of(kinds, k):
